@@ -19,7 +19,7 @@ necessary for that exactness — breaking one makes the construction wrong on so
 """
 import re
 
-from ..mir import parse_at, Mir, Exprs, E, canon, Call, natural_loops, control_deps_transitive, short_path, inline_helpers, closure_loop_context, lift_closure_canon
+from ..mir import parse_at, Mir, Exprs, E, canon, strip_transparent, Call, natural_loops, control_deps_transitive, short_path, inline_helpers, closure_loop_context, lift_closure_canon
 from ..report import Result, finish
 
 
@@ -447,7 +447,18 @@ def run_rules(ctx, res):
         fx = Exprs(f)
         c = [c for c in f.calls() if c.local and mir.fns[c.rkey] in dec][0]
         a0, a1 = canon(fx.operand(c.args[0])), canon(fx.operand(c.args[1]))
-        okq = bool(re.match(r"^ImmutContext::get_first_of_symbol_sequence\(param1, ImmutContext::get_symbol_sequence_after_dot\(param1, param2\)\)$", a0)) and a1 == "param2.lookahead"
+        # by role, not by name: F(ctx, G(ctx, item)) with F a FIRST-of-sequence function (returns the FIRST-set type
+        # from a loop over its sequence) and G the function giving an item's symbols after its dot
+        e0 = strip_transparent(fx.operand(c.args[0]))
+        okq = False
+        if e0.k == "call" and e0.site is not None and e0.site.local and len(e0.a[1]) == 2:
+            F = mir.fns.get(e0.site.rkey)
+            e1 = strip_transparent(e0.a[1][1])
+            if F is not None and F.output and F.output["head"].endswith("::FirstSet") and natural_loops(F) and canon(e0.a[1][0]) == "param1" \
+                    and e1.k == "call" and e1.site is not None and e1.site.local and [canon(x_) for x_ in e1.a[1]] == ["param1", "param2"]:
+                G = mir.fns.get(e1.site.rkey)
+                okq = G is not None and G.output is not None and "Symbol" in G.output["s"] and any(t_["head"].endswith("::StateItem") for t_ in G.inputs)
+        okq = okq and a1 == "param2.lookahead"
         res.inst(N4, "first-after-dot", c.where, True, "FIRST of %s with %s" % (a0[:100], a1))
         if not okq:
             res.violate(N4, "first-after-dot", c.where, "implied look-aheads must be FIRST(symbols after the dot of the given item) augmented with that item's own look-ahead; found (%s, %s)" % (a0[:120], a1))
@@ -625,11 +636,23 @@ def run_rules(ctx, res):
         fx = Exprs(f)
         c = [c for c in f.calls() if (c.rpath or "").endswith("HashSet::<T, S, A>::insert")][0]
         v = canon(fx.operand(c.args[1]))
-        okt = bool(re.match(r"^Transition::Transition\{param2, UnnormalizedMachineBuilder::enqueue_state_if_needed\(param1, UnnormalizedMachineBuilder::get_transition_target\(param1, param2, param3\)\), param3\}$", v))
+        # by role, not by name: {from: param2, to: M(self, T(self, param2, param3)), symbol: param3} with
+        # T: (builder, state index, symbol) -> State and M: (builder, State) -> state index
+        ve = strip_transparent(fx.operand(c.args[1]))
+        okt = False
+        if ve.k == "agg" and str(ve.a[1]).endswith("Transition") and len(ve.a[2]) == 3 and canon(ve.a[2][0]) == "param2" and canon(ve.a[2][2]) == "param3":
+            me = strip_transparent(ve.a[2][1])
+            if me.k == "call" and me.site is not None and me.site.local and len(me.a[1]) == 2 and canon(me.a[1][0]) == "param1":
+                M = mir.fns.get(me.site.rkey)
+                te = strip_transparent(me.a[1][1])
+                if M is not None and M.output and M.output["head"].endswith("::StateIndex") and te.k == "call" and te.site is not None and te.site.local and [canon(x_) for x_ in te.a[1]] == ["param1", "param2", "param3"]:
+                    T = mir.fns.get(te.site.rkey)
+                    okt = T is not None and T.output is not None and T.output["head"].endswith("::State")
         res.inst(N5, "transition-record", c.where, True, v[:200])
         if not okt:
             res.violate(N5, "transition-record", c.where, "the recorded transition must be {from: the expanded state, to: merge-or-enqueue(closure of the advanced items for this state and symbol), symbol: that symbol}; found `%s`" % v[:240])
         callers = [(g, cc) for g in stage for cc in g.calls() if cc.local and cc.rkey == f.key]
+        srd = []
         for (g, cc) in callers:
             gx = Exprs(g)
             sym = canon(gx.operand(cc.args[2]))
@@ -638,14 +661,20 @@ def run_rules(ctx, res):
             if cctx is not None:
                 # `symbols.iter().for_each(|s| ..)`: the same loop, read in the parent's terms
                 sym, st_arg = lift_closure_canon(sym, cctx), lift_closure_canon(st_arg, cctx)
-            okl = bool(re.match(r"^\(Iterator@Iter::next\(IntoIterator@\w+::into_iter\((slice::iter\()?(Deref@Oset::deref\()?UnnormalizedMachineBuilder::get_symbols_right_of_dot\(param1, param2\)\)?\)?\)\) as Some\)\.0$", sym)) and st_arg == "param2"
+            ml = re.match(r"^\(Iterator@Iter::next\(IntoIterator@\w+::into_iter\((?:slice::iter\()?(?:Deref@Oset::deref\()?((?:\w+::)*\w+)\(param1, param2\)\)?\)?\)\) as Some\)\.0$", sym)
+            # the iterated collection is the result of the builder's "symbols right of a dot in this state" function
+            # (by role: (builder, state index) -> ordered set of symbols)
+            S = [h_ for h_ in stage if ml and short_path(h_.path) == ml.group(1) and h_.output is not None and "Symbol" in h_.output["s"] and any(t_["head"].endswith("::StateIndex") for t_ in h_.inputs)]
+            okl = len(S) == 1 and st_arg == "param2"
+            for h_ in S:
+                if h_ not in srd:
+                    srd.append(h_)
             res.inst(N5, "per-symbol-loop", cc.where, True, sym[:160])
             if not okl:
                 res.violate(N5, "per-symbol-loop", cc.where, "every symbol right of a dot in the expanded state must get a transition (loop over the unfiltered symbol set of that state); found symbol `%s`" % sym[:200])
-        srd = [g for g in stage if g.name == "get_symbols_right_of_dot" and g.kind == "AssocFn" and "Oset" in (g.output or {}).get("s", "")]
         for g in srd:
             r = canon(Exprs(g).local(0))
-            okr = bool(re.match(r"^Iterator::collect\(Iterator::filter_map\(slice::iter\((Deref@Oset::deref\()?UnnormalizedMachineBuilder::state\(param1, param2\)\.items\)?\), .*\)\)$", r))
+            okr = bool(re.match(r"^Iterator::collect\(Iterator::filter_map\(slice::iter\((Deref@Oset::deref\()?(?:(?:\w+::)*\w+\(param1, param2\)|param1\.states\[param2\.0\])\.items\)?\), .*\)\)$", r))
             res.inst(N5, "symbols-right-of-dot", g.where, True, r[:160])
             if not okr:
                 res.violate(N5, "symbols-right-of-dot", g.where, "the symbols to expand must be collected from *all* items of the state; found `%s`" % r[:200])
